@@ -501,3 +501,90 @@ Proof.
     + apply send_all_loop_write_waits. assumption.
   - apply sendmsg_loop_write_waits. assumption.
 Qed.
+
+(* ------------------------------------------------------------------------------------------------------------ *)
+(* a zero (or exhausted) budget means "do not wait", not "cannot complete": if no send()/sendmsg() call ever reports
+   would-block, send_all / send_all_from_iterable never raise TimeoutError, whatever the timeout (0 included) *)
+Definition never_blocks (s : sock) : Prop :=
+  Forall (fun a => match a with SBlock _ _ => False | _ => True end) (sk_script s).
+
+Lemma retry_send_never_blocks : forall data fuel ri T s sels,
+  never_blocks s ->
+  rr_out (retry (sock_send data) fuel ri T s sels) <> RTimeout
+  /\ never_blocks (rr_st (retry (sock_send data) fuel ri T s sels)).
+Proof.
+  intros data fuel ri T s sels H. unfold retry. destruct (tmo_neg T); [simpl; split; [discriminate|assumption]|].
+  destruct fuel as [|f]; simpl; [split; [discriminate|assumption]|].
+  unfold sock_send. destruct s as [script wire]. unfold never_blocks in *. simpl in *.
+  destruct script as [|a rest]; simpl; [split; [discriminate|constructor]|].
+  inversion H as [|? ? Ha Hr]; subst.
+  destruct a as [n c|w c|c]; simpl; try (split; [discriminate|assumption]). contradiction.
+Qed.
+
+Lemma send_all_loop_never_blocks : forall F ri fuel rest T s sels,
+  never_blocks s -> sr_out (send_all_loop F ri fuel rest T s sels) <> SExc E_TIMEOUT.
+Proof.
+  intros F ri fuel. induction fuel as [|f IH]; intros rest T s sels H.
+  - destruct rest; simpl; discriminate.
+  - destruct rest as [|b rest']; [simpl; discriminate|].
+    simpl. unfold send.
+    destruct (retry_send_never_blocks (b :: rest') F ri T s sels H) as [A B].
+    pose proof (retry_send_facts (b :: rest')) as _.
+    destruct (rr_out (retry (sock_send (b :: rest')) F ri T s sels)) as [sent T1| |c|] eqn:E; simpl.
+    + apply IH. exact B.
+    + contradiction A; reflexivity.
+    + intro X. inversion X. subst c.
+      (* a raised code is never the TimeoutError code *)
+      revert E. unfold retry. destruct (tmo_neg T); [simpl; intro E; inversion E|].
+      destruct F as [|F']; simpl; [discriminate|].
+      unfold sock_send. destruct s as [script wire]; simpl.
+      destruct script as [|a r]; simpl; [discriminate|].
+      destruct a as [n k|w k|k]; simpl; try discriminate;
+        try (unfold never_blocks in H; simpl in H; inversion H; contradiction);
+        try (intro E; inversion E; discriminate).
+    + discriminate.
+Qed.
+
+Lemma sendmsg_loop_never_blocks : forall F ri iov fuel bufs T s sels,
+  never_blocks s -> sr_out (sendmsg_loop F ri iov fuel bufs T s sels) <> SExc E_TIMEOUT.
+Proof.
+  intros F ri iov fuel. induction fuel as [|f IH]; intros bufs T s sels H.
+  - destruct bufs; simpl; discriminate.
+  - destruct bufs as [|b0 bufs']; [simpl; discriminate|].
+    rewrite sendmsg_loop_step. cbv zeta. unfold sock_sendmsg.
+    set (data := concat (firstn iov (b0 :: bufs'))).
+    destruct (retry_send_never_blocks data F ri T s sels H) as [A B].
+    destruct (rr_out (retry (sock_send data) F ri T s sels)) as [sent T1| |c|] eqn:E; simpl.
+    + apply IH. exact B.
+    + contradiction A; reflexivity.
+    + intro X. inversion X. subst c.
+      revert E. unfold retry. destruct (tmo_neg T); [simpl; intro E; inversion E|].
+      destruct F as [|F']; simpl; [discriminate|].
+      unfold sock_send. destruct s as [script wire]; simpl.
+      destruct script as [|a r]; simpl; [discriminate|].
+      destruct a as [n k|w k|k]; simpl; try discriminate;
+        try (unfold never_blocks in H; simpl in H; inversion H; contradiction);
+        try (intro E; inversion E; discriminate).
+    + discriminate.
+Qed.
+
+Lemma send_iter_never_blocks : forall drop_empty has_sendmsg iov F fuel ri chunks T s sels,
+  never_blocks s ->
+  sr_out (send_iter drop_empty has_sendmsg iov F fuel ri chunks T s sels) <> SExc E_TIMEOUT.
+Proof.
+  intros. unfold send_iter. destruct ((iov <=? 0)%Z || negb has_sendmsg).
+  - unfold send_all_join, send_all. destruct (concat chunks) as [|b d].
+    + unfold send. destruct (retry_send_never_blocks [] F ri T s sels H) as [A _].
+      destruct (rr_out (retry (sock_send []) F ri T s sels)) as [v T1| |c|] eqn:E; simpl; try discriminate.
+      * contradiction A; reflexivity.
+      * intro X. inversion X. subst c.
+        revert E. unfold retry. destruct (tmo_neg T); [simpl; intro E; inversion E|].
+        destruct F as [|F']; simpl; [discriminate|].
+        unfold sock_send. destruct s as [script wire]; simpl.
+        destruct script as [|a r]; simpl; [discriminate|].
+        destruct a as [n k|w k|k]; simpl; try discriminate;
+          try (unfold never_blocks in H; simpl in H; inversion H; contradiction);
+          try (intro E; inversion E; discriminate).
+    + apply send_all_loop_never_blocks. assumption.
+  - apply sendmsg_loop_never_blocks. assumption.
+Qed.
